@@ -58,7 +58,7 @@ def reset_process_state():
 
 def run_tool(tool, argv, fs, sim=None, stdin=b"", stdin_plan=None,
              stdout_fail=None, clock=None, stdin_closed=False,
-             stdout_closed=False, stderr_closed=False):
+             stdout_closed=False, stderr_closed=False, stdio_encoding=None):
     """argv excludes the program name.  stdin: bytes.  clock: a SimClock
     that answers every question about the time and the day."""
     if clock is not None:
@@ -67,11 +67,16 @@ def run_tool(tool, argv, fs, sim=None, stdin=b"", stdin_plan=None,
             return run_tool(tool, argv, fs, sim, stdin, stdin_plan,
                             stdout_fail, stdin_closed=stdin_closed,
                             stdout_closed=stdout_closed,
-                            stderr_closed=stderr_closed)
+                            stderr_closed=stderr_closed,
+                            stdio_encoding=stdio_encoding)
     mod = TOOLS[tool]
     out = Outcome()
-    so = SimStream(name="<stdout>", fail_write=stdout_fail)
-    se = SimStream(name="<stderr>")
+    # (the standard streams have the encoding of the locale: strict on the
+    # standard output, 'backslashreplace' on the standard error)
+    so = SimStream(name="<stdout>", fail_write=stdout_fail,
+                   encoding=stdio_encoding)
+    se = SimStream(name="<stderr>", encoding=stdio_encoding,
+                   errors="backslashreplace")
     si = text_reader(stdin, name="<stdin>", plan=stdin_plan)
     saved = (sys.argv, sys.stdin, sys.stdout, sys.stderr)
     reset_process_state()
